@@ -173,6 +173,16 @@ fn draw_op(r: &mut Rng, nr: usize, nc: usize, grow: bool) -> Op {
 }
 
 fn start_matrix(r: &mut Rng, maxd: u64) -> (Vec<f64>, usize, usize) {
+    if r.coin(0.12) {
+        // square and symmetric up to the tolerance of `is_symmetric` but NOT exactly: mirrored entries one ulp apart, or an infinite entry facing a
+        // finite one (a structural operation must still move every element: "approximately symmetric" is not "equal to its transpose")
+        let n = 2 + r.below(maxd.max(3) - 1) as usize;
+        let mut d = vec![0.0; n * n];
+        for i in 0..n { for j in 0..=i { let v = r.small_int(9) + r.uniform(0.0, 1.0); d[i * n + j] = v; d[j * n + i] = v; } }
+        let (i, j) = (r.below(n as u64) as usize, r.below(n as u64) as usize);
+        if i != j { d[i * n + j] = if r.coin(0.8) { f64::from_bits(d[j * n + i].to_bits() + 1) } else { f64::INFINITY }; }
+        return (d, n, n);
+    }
     let (nr, nc) = (1 + r.below(maxd) as usize, 1 + r.below(maxd) as usize);
     let d: Vec<f64> = if r.coin(0.8) { (0..nr * nc).map(|_| r.small_int(99)).collect() } else { (0..nr * nc).map(|_| r.uniform(-4.0, 4.0)).collect() };
     (d, nr, nc)
@@ -411,7 +421,8 @@ pub fn oracle(tier: &str, seed: u64) -> (u64, Vec<Finding>) {
             match catch(|| if val == 0.0 { Matrix::zeros(nr, nc) } else { Matrix::ones(nr, nc) }) { Ok(m) => if !(m.nrows == nr && m.ncols == nc && m.data.len() == nr * nc && m.data.iter().all(|x| *x == val)) { push(&mut out, &format!("{}:wrong", name), "wrong shape or fill".into(), format!("{}x{}", nr, nc)); } Err(e) => push(&mut out, &format!("{}:panics", name), e, format!("{}x{}", nr, nc)) }
         }
         let nr = 1 + r.below(n.min(12) as u64) as usize; let nc = 1 + r.below(4) as usize;
-        let x: Vec<f64> = (0..nr * nc).map(|_| r.small_int(50)).collect();
+        let mut x: Vec<f64> = (0..nr * nc).map(|_| r.small_int(50)).collect();
+        if r.coin(0.35) { for i in 0..nr { x[i * nc] = 1.0; } }   // x already starts with a column of ones: a column is prepended all the same
         crumb(&format!("design(x={}, rows={})", json_floats(&x), nr));
         match catch(|| design(&x, nr)) { Ok(v) => { let w = nc + 1; let ok = v.len() == nr * w && (0..nr).all(|i| v[i * w] == 1.0 && (0..nc).all(|j| v[i * w + 1 + j] == x[i * nc + j]));
             if !ok { push(&mut out, "design:not-ones-column-then-x", format!("design of a {}x{} row-major matrix returned {:?}; want each row = 1 followed by the row of x", nr, nc, v), format!("x={} rows={}", json_floats(&x), nr)); }
@@ -474,6 +485,15 @@ pub fn oracle(tier: &str, seed: u64) -> (u64, Vec<Finding>) {
                         if (det - 1.0).abs() > 1e-12 { push(&mut out, "rotation:determinant", format!("{}: det = {:e}", nm, det), inp.clone()); }
                     }
                     if cw.data.len() == 9 && ccw.data.len() == 9 && !(0..3).all(|i| (0..3).all(|j| cw.data[i * 3 + j] == ccw.data[j * 3 + i])) { push(&mut out, "rotation:cw-not-ccw-transposed", "cw != ccw^T".into(), inp.clone()); }
+                    // the defining pattern: counter-clockwise = the right-handed rotation about the named axis (it leaves the axis fixed and turns the
+                    // next axis towards the one after it: X: y->z, Y: z->x, Z: x->y), clockwise = its transpose
+                    if ccw.data.len() == 9 {
+                        let (c, sn) = (ang.cos(), ang.sin());
+                        let want: [f64; 9] = match ax { 0 => [1.0, 0.0, 0.0, 0.0, c, -sn, 0.0, sn, c], 1 => [c, 0.0, sn, 0.0, 1.0, 0.0, -sn, 0.0, c], _ => [c, -sn, 0.0, sn, c, 0.0, 0.0, 0.0, 1.0] };
+                        if let Some(k) = (0..9).find(|&k| (ccw.data[k] - want[k]).abs() > 1e-12) {
+                            push(&mut out, "rotation:not-the-defining-pattern", format!("counter-clockwise rotation: entry ({},{}) = {:e}, the right-handed rotation about this axis has {:e}", k / 3, k % 3, ccw.data[k], want[k]), inp.clone());
+                        }
+                    }
                 }
                 Err(e) => push(&mut out, "rotation:panics", e, inp),
             }
